@@ -35,6 +35,7 @@ def race_programs(draw):
     cfg = {'msg': draw(st.booleans()), 'frag': frag, 'rbuf': draw(gen.rbufs()), 'none_empty': draw(st.booleans())}
     if lease:
         cfg['lease'] = lease
+    cfg['exc_style'] = draw(st.sampled_from(['str', 'str', 'str', 'none', 'int', 'nested', 'tuple', 'bytes']))
     connect_race = draw(st.integers(0, 3)) == 0
     if connect_race:
         # requests issued while connect() is still waiting for the transport provider
